@@ -49,9 +49,9 @@ def collectionsOk : Bool := L.rows.all rowCollectionOk
 /-- `origin` leaves the special form `s` alone. -/
 def stableId (s : Nat) : Bool := (L.getOrigin s).isNone && (originM L (.base s)).isBaseId s
 
-def nameIs (i : Nat) (s : String) : Bool :=
+def nameIs (i : Nat) (s : Str) : Bool :=
   match L.row i with
-  | some r => nameRow r == s.toList
+  | some r => nameRow r == s
   | none => false
 
 def specialIds : List Nat := [L.unionId, L.unionTypeId, L.optionalId, L.literalId, L.finalId, L.classVarId, L.callableId]
@@ -68,8 +68,8 @@ def stableOk : Bool :=
 
 /-- … and they carry the names the name-based predicates look for. -/
 def namesOk : Bool :=
-  nameIs L L.unionId "Union" && nameIs L L.unionTypeId "UnionType" && nameIs L L.optionalId "Optional" &&
-  nameIs L L.literalId "Literal" && nameIs L L.finalId "Final"
+  nameIs L L.unionId nUnion && nameIs L L.unionTypeId nUnionType && nameIs L L.optionalId nOptional &&
+  nameIs L L.literalId nLiteral && nameIs L L.finalId nFinal
 
 /-- No special form is a value of GENERIC_TYPE_MAP or the typing origin of a row. -/
 def gtmAvoidsSpecial : Bool := L.gtm.all fun e => !(specialIds L).contains e.2.1
@@ -861,7 +861,7 @@ theorem origin_mapped_same_kind (hA : adequate L = true) {a : Ann} (hd : directO
 
 /-! ## 10. Special-form predicates: syntactic specification -/
 
-def magicNames : List Str := ["Union".toList, "UnionType".toList, "Optional".toList, "Literal".toList]
+def magicNames : List Str := [nUnion, nUnionType, nOptional, nLiteral]
 
 /-- `origin` does not turn the base object `i` into a special form, and the class it finds is not called like one.
     (A decidable fact per catalogue object, re-decided for the whole table in `lattice_ordinary`.) -/
@@ -910,7 +910,7 @@ theorem originM_tvarConstr (cs : List Ann) : originM L (.tvarConstr cs) = .tvarC
 theorem originM_tvarFree : originM L .tvarFree = .tvarFree := originM_nonbase_fix L rfl rfl rfl rfl rfl
 theorem originM_fref (l b : Bool) : originM L (.fref l b) = .fref l b := originM_nonbase_fix L rfl rfl rfl rfl rfl
 
-theorem nameOf_of_nameIs {i : Nat} {s : String} (h : nameIs L i s = true) : nameOf L (.base i) = some s.toList := by
+theorem nameOf_of_nameIs {i : Nat} {s : Str} (h : nameIs L i s = true) : nameOf L (.base i) = some s := by
   unfold nameIs at h
   unfold nameOf
   cases hr : L.row i with
@@ -918,9 +918,9 @@ theorem nameOf_of_nameIs {i : Nat} {s : String} (h : nameIs L i s = true) : name
   | some r => simpa [hr] using h
 
 theorem names_of (hA : adequate L = true) :
-    nameOf L (.base L.unionId) = some "Union".toList ∧ nameOf L (.base L.unionTypeId) = some "UnionType".toList ∧
-    nameOf L (.base L.optionalId) = some "Optional".toList ∧ nameOf L (.base L.literalId) = some "Literal".toList ∧
-    nameOf L (.base L.finalId) = some "Final".toList := by
+    nameOf L (.base L.unionId) = some nUnion ∧ nameOf L (.base L.unionTypeId) = some nUnionType ∧
+    nameOf L (.base L.optionalId) = some nOptional ∧ nameOf L (.base L.literalId) = some nLiteral ∧
+    nameOf L (.base L.finalId) = some nFinal := by
   have h := adequate_special L hA
   simp only [specialOk, namesOk, Bool.and_eq_true] at h
   obtain ⟨⟨⟨⟨⟨⟨_, _⟩, ⟨⟨⟨⟨n1, n2⟩, n3⟩, n4⟩, n5⟩⟩, _⟩, _⟩, _⟩, _⟩ := h
@@ -950,10 +950,19 @@ theorem not_magic {n : Option Str} (h : nameIn magicNames n = false) :
       Bool.or_false, Bool.or_eq_false_iff] at h ⊢
     exact ⟨⟨h.1, h.2.1⟩, h.2.2.1, h.1, h.2.1, h.2.2.2⟩
 
+theorem nameIn_table :
+    nameIn unionNames (some nUnion) = true ∧ nameIn unionNames (some nUnionType) = true ∧
+    nameIn unionNames (some nLiteral) = false ∧ nameIn unionNames (some nFinal) = false ∧
+    nameIn optionalNames (some nUnion) = false ∧ nameIn optionalNames (some nUnionType) = false ∧
+    nameIn optionalNames (some nLiteral) = false ∧ nameIn optionalNames (some nFinal) = false ∧
+    nameIn nullableNames (some nUnion) = true ∧ nameIn nullableNames (some nUnionType) = true ∧
+    nameIn nullableNames (some nLiteral) = true ∧ nameIn nullableNames (some nFinal) = false := by decide
+
 /-- `isuniontype` is "the annotation is a union" — `typing.Union[...]`, `Optional[...]` and `X | Y` alike. -/
 theorem isuniontype_spec (hA : adequate L = true) {a : Ann} (hp : plainOk L a = true) :
     isuniontypeM L a = a.isUnion := by
   obtain ⟨nu, nut, _, nl, nf⟩ := names_of L hA
+  obtain ⟨u1, u2, u3, u4, _⟩ := nameIn_table
   unfold isuniontypeM
   cases a with
   | base i =>
@@ -964,9 +973,9 @@ theorem isuniontype_spec (hA : adequate L = true) {a : Ann} (hp : plainOk L a = 
     rw [originM_sub, hj, (not_magic hn).1]; rfl
   | union sp ms =>
     rw [originM_union L hA]
-    cases sp <;> simp [nu, nut, nameIn, unionNames, Ann.isUnion]
-  | literal h => rw [originM_literal L hA, nl]; simp [nameIn, unionNames, Ann.isUnion]
-  | final x => rw [originM_final L hA, nf]; simp [nameIn, unionNames, Ann.isUnion]
+    cases sp <;> simp [nu, nut, u1, u2, Ann.isUnion]
+  | literal h => rw [originM_literal L hA, nl, u3]; rfl
+  | final x => rw [originM_final L hA, nf, u4]; rfl
   | tvarBound b => rw [originM_tvarBound]; rfl
   | tvarConstr cs => rw [originM_tvarConstr]; rfl
   | tvarFree => rw [originM_tvarFree]; rfl
@@ -984,6 +993,7 @@ def specOptional : Ann → Bool
 theorem isoptionaltype_spec (hA : adequate L = true) {a : Ann} (hp : plainOk L a = true) :
     isoptionaltypeM L a = specOptional L a := by
   obtain ⟨nu, nut, _, nl, nf⟩ := names_of L hA
+  obtain ⟨_, _, _, _, o1, o2, o3, o4, n1, n2, n3, n4⟩ := nameIn_table
   unfold isoptionaltypeM
   cases a with
   | base i =>
@@ -994,13 +1004,13 @@ theorem isoptionaltype_spec (hA : adequate L = true) {a : Ann} (hp : plainOk L a
     rw [originM_sub, hj, (not_magic hn).2.1, (not_magic hn).2.2]; simp [specOptional]
   | union sp ms =>
     rw [originM_union L hA]
-    cases sp <;> simp [nu, nut, nameIn, optionalNames, nullableNames, hasNullArg, specOptional]
+    cases sp <;> simp [nu, nut, o1, o2, n1, n2, hasNullArg, specOptional]
   | literal h =>
-    rw [originM_literal L hA, nl]
-    simp [nameIn, optionalNames, nullableNames, hasNullArg, specOptional]
+    rw [originM_literal L hA, nl, o3, n3]
+    simp [hasNullArg, specOptional]
   | final x =>
-    rw [originM_final L hA, nf]
-    simp [nameIn, optionalNames, nullableNames, specOptional]
+    rw [originM_final L hA, nf, o4, n4]
+    simp [specOptional]
   | tvarBound b => rw [originM_tvarBound]; simp [nameOf, nameIn, specOptional]
   | tvarConstr cs => rw [originM_tvarConstr]; simp [nameOf, nameIn, specOptional]
   | tvarFree => rw [originM_tvarFree]; simp [nameOf, nameIn, specOptional]
@@ -1341,7 +1351,7 @@ theorem isBaseId_normTv_erase (x : Ann) :
   | tvarBound b => simp [erase, normTv, isBaseId_erase]
   | _ => simp [erase, normTv, Ann.isBaseId]
 
-theorem lastIsEllipsis_erase (hA : adequate L = true) (args : List Ann) :
+theorem lastIsEllipsis_erase (args : List Ann) :
     lastIsEllipsis L ((eraseList L args).map (normTv L)) = lastIsEllipsis L (args.map (normTv L)) := by
   rw [eraseList_eq_map]
   unfold lastIsEllipsis
@@ -1354,7 +1364,7 @@ theorem specFixedTuple_erase (hA : adequate L = true) (a : Ann) :
     specFixedTuple L (erase L a) = specFixedTuple L a := by
   cases a with
   | sub g args =>
-    simp only [erase, specFixedTuple, lastIsEllipsis_erase L hA, originOr_idem L hA]
+    simp only [erase, specFixedTuple, lastIsEllipsis_erase L, originOr_idem L hA]
     simp [eraseList_eq_map]
   | union sp ms => cases sp <;> simp [erase, specFixedTuple]
   | _ => simp [erase, specFixedTuple]
